@@ -122,9 +122,18 @@ PARSE_RANGE_HEADER = Spec(
 )
 
 
+UNQUOTE_ETAG = Spec(
+    module="http.py",
+    qualname="unquote_etag",
+    name="unquote_etag",
+    params=[("etag", "Option Str")],
+    result="Option Str × Option Bool",
+)
+
+
 @generator("PyFns_Range")
 def gen_range():
-    return emit("Range", [IS_BYTE_RANGE_VALID, RANGE_FOR_LENGTH, RANGE_INIT, PARSE_RANGE_HEADER], imports=["WzVerif.Gen.PyFns_Internal"])
+    return emit("Range", [IS_BYTE_RANGE_VALID, RANGE_FOR_LENGTH, RANGE_INIT, PARSE_RANGE_HEADER, UNQUOTE_ETAG], imports=["WzVerif.Gen.PyFns_Internal"])
 
 
 # --------------------------------------------------------------------------
@@ -293,3 +302,20 @@ UNQUOTE_HEADER_VALUE = Spec(
 @generator("PyFns_Http")
 def gen_http():
     return emit("Http", [QUOTE_HEADER_VALUE, UNQUOTE_HEADER_VALUE, IS_BYTE_RANGE_VALID], imports=["WzVerif.Model.Http"])
+
+
+# --------------------------------------------------------------------------
+# C01: multipart decoder
+
+LAST_NEWLINE = Spec(
+    module="sansio/multipart.py",
+    qualname="MultipartDecoder.last_newline",
+    name="last_newline",
+    params=[("data", "Bytes")],
+    result="Int",
+)
+
+
+@generator("PyFns_Multipart")
+def gen_multipart():
+    return emit("Multipart", [LAST_NEWLINE])
